@@ -15,6 +15,7 @@ import (
 	"golang.org/x/tools/go/ssa"
 
 	"verif/tools/load"
+	"verif/tools/model"
 	"verif/tools/pa"
 	"verif/tools/pats"
 )
@@ -124,7 +125,13 @@ func (e *Evaluator) run(fn *ssa.Function, fr *frame) (any, error) {
 	return e.runHook(fn, fr, nil, false)
 }
 
+// bound holds the element of a constant list while its range loop is being unrolled.
+var bound = map[ssa.Value]string{}
+
 func constStr(v ssa.Value) (string, bool) {
+	if s, ok := bound[v]; ok {
+		return s, true
+	}
 	c, ok := v.(*ssa.Const)
 	if !ok || c.Value == nil || c.Value.Kind() != constant.String {
 		return "", false
@@ -224,7 +231,61 @@ func (e *Evaluator) runHook(fn *ssa.Function, fr *frame, hook func(*ssa.Call, an
 	}
 	b := fn.Blocks[0]
 	visited := map[*ssa.BasicBlock]bool{}
+	loops := model.SliceRangeLoops(fn)
+	type unroll struct {
+		l     *model.RangeLoop
+		elems []string
+		next  int
+		elem  ssa.Value
+	}
+	active := map[*ssa.BasicBlock]*unroll{}
 	for {
+		// a range loop over a list of constants is unrolled: the element is bound to each constant in turn
+		var lp *model.RangeLoop
+		for _, l := range loops {
+			if l.Header == b {
+				lp = l
+			}
+		}
+		if lp != nil {
+			u := active[b]
+			if u == nil {
+				elems, ok := strSlice(lp.Over)
+				if !ok {
+					return nil, fmt.Errorf("%s: loop over a non-constant list in policy construction code", fn.Name())
+				}
+				u = &unroll{l: lp, elems: elems}
+				for blk := range lp.Blocks {
+					for _, in := range blk.Instrs {
+						if ld, ok := in.(*ssa.UnOp); ok {
+							if ia, ok := ld.X.(*ssa.IndexAddr); ok && ia.X == lp.Over {
+								u.elem = ld
+							}
+						}
+					}
+				}
+				active[b] = u
+			}
+			if u.next < len(u.elems) {
+				if u.elem != nil {
+					bound[u.elem] = u.elems[u.next]
+				}
+				u.next++
+				for blk := range lp.Blocks {
+					if blk != lp.Header {
+						delete(visited, blk)
+					}
+				}
+				b = lp.Body
+				continue
+			}
+			if u.elem != nil {
+				delete(bound, u.elem)
+			}
+			delete(active, b)
+			b = lp.Exit
+			continue
+		}
 		if visited[b] {
 			return nil, fmt.Errorf("%s: loop in policy construction code", fn.Name())
 		}
@@ -314,7 +375,7 @@ func (e *Evaluator) call(fn *ssa.Function, fr *frame, cl *ssa.Call, hook func(*s
 	c := cl.Common()
 	cal := c.StaticCallee()
 	if cal == nil {
-		if isMain {
+		if _, isBuiltin := c.Value.(*ssa.Builtin); isBuiltin || isMain {
 			return nil
 		}
 		return fmt.Errorf("%s: dynamic call in policy construction code", fn.Name())
